@@ -326,6 +326,9 @@ func runC11(e *Engine, r *Report) {
 		})
 		r.check(cnt >= 2, "MPT-pool-stop-order", "unloadNodes offloads loaded and busy nodes", e.pos(un.Pos()), "both reference sets are released", "unloadNodes no longer releases both the loaded and the busy reference sets")
 	}
+	// "each entry is delivered once": the applied index advances in the function (and critical
+	// section) that applied the entry, on every exit (decided by C02's rule set)
+	borrow(e, r, "C02", "MPT-setapplied")
 }
 
 func lastN(ss []string, n int) string {
